@@ -250,11 +250,37 @@ def slicePolicy (policyLen start remLen : Nat) : Except SyncErr (Option (Nat × 
     | .error e => .error e
     | .ok r => .ok (some r, r.2)
 
+/-- the highest `max_cut` among the parent addresses of a `Prior<Address>` value (`none` for
+`Prior::None`) -/
+def addrMaxCut : WVal → Option Nat
+  | .tuple fs => asNat (fld fs Address_max_cut)
+  | _ => none
+
+def parentMaxCut : WVal → Option Nat
+  | .variant i p =>
+    if i = Prior_Single then addrMaxCut p
+    else if i = Prior_Merge then
+      match p with
+      | .tuple [l, r] =>
+        match addrMaxCut l, addrMaxCut r with
+        | some a, some b => some (max a b)
+        | _, _ => none
+      | _ => none
+    else none
+  | _ => none
+
+/-- `parent_has_successor`: the command's own max cut (`parent max_cut + 1`) is representable -/
+def parentHasSuccessor (parent : WVal) : Bool :=
+  match parentMaxCut parent with
+  | some m => decide (m + 1 < usizeLimit)
+  | none => true
+
 /-- the `for meta in commands` loop of `get_sync_commands`: `remLen = remaining.len()`,
 `start` the running offset, `count` the number of commands already pushed to `result` -/
 def sliceCmds : List Meta → Nat → Nat → Nat → Except SyncErr (List CmdOut)
   | [], _, _, _ => .ok []
   | m :: ms, remLen, start, count =>
+    if parentHasSuccessor m.parent = false then .error .malformedResponse else
     match slicePolicy m.policyLen start remLen with
     | .error e => .error e
     | .ok (policy, start1) =>
